@@ -91,6 +91,18 @@ def generate(seed, tier="quick", label="mlmc"):
     if sc["nproc"] != 1 and r.random() < 0.15:
         # fault: a task of one of the run's map calls dies in its worker (each call hit with probability 1/k)
         sc["env"]["task_fail_one_in"] = r.choice([3, 8])
+    # history: the SAME engine object has priced before, with a tighter tolerance (it then held more samples per level)
+    sc["warm_rmse_factor"] = r.choice([0.5, 0.3]) if (variant == "adaptive" and not sc.get("misconfigured") and r.random() < 0.2) else None
+    # boundary-targeted allocation (the allocation callable is a public constructor argument): instead of sampling
+    # trajectories until one happens to fall next to the 1% gate, the world's allocation steers ONE level to a size n*
+    # in [99k, 100k) and then asks for n* + k samples - more than 1% more than the level has, less than 1% of what is asked
+    if variant == "adaptive" and not sc.get("misconfigured") and not sc["controls"] and r.random() < 0.12:
+        sc["alloc_mode"] = "gate_boundary"
+        sc["criteria"] = "always"
+        sc["warm_rmse_factor"] = None
+        sc["gate_level"] = r.randrange(0, 4)
+        sc["gate_k"] = r.choice([1, 2, 3, 5, 8])
+        sc["gate_j"] = r.randrange(0, 8)
     # history of READS of a results object: the order in which the caller looks at its figures
     order = list(RESULT_FIELDS)
     if r.random() < 0.5:
@@ -171,8 +183,30 @@ def run(wd, sc, cap=60000):
     maximum_level = sc["maximum_level"]
 
     # ---- recorders around the (real) criteria callables: public constructor ConvergenceCriteria --------
+    phase = {"warm": False, "led0": 0}
+
+    def scripted_gate_allocation(ns):
+        """call 1: one level is sent to n* in [99k, 100k); call 2: that level is asked for n* + k; then: as simulated"""
+        counts = [sum(1 for e in wd.stub_ledger[phase["led0"]:] if e["level"] == lvl) for lvl in range(len(ns))]
+        out = np.array(counts, dtype=np.asarray(ns).dtype)
+        lvl = sc["gate_level"] % len(ns)
+        state["gate_calls"] = state.get("gate_calls", 0) + 1
+        if state["gate_calls"] == 1:
+            k = max(sc["gate_k"], counts[lvl] // 99 + 1)
+            state["gate_k"] = k
+            out[lvl] = 99 * k + min(k - 1, sc["gate_j"])
+        elif state["gate_calls"] == 2 and counts[lvl] == 99 * state["gate_k"] + min(state["gate_k"] - 1, sc["gate_j"]):
+            out[lvl] = counts[lvl] + state["gate_k"]
+            wd.probes["mlmc.gate_boundary_probed"] += 1
+            wd.faults["alloc.boundary_targeted"] += 1
+        return out
+
     def rec_alloc(rmse, vl, cl):
         ns = compute_mc_paths_giles(rmse, vl, cl)
+        if phase["warm"]:
+            return ns
+        if sc.get("alloc_mode") == "gate_boundary":
+            ns = scripted_gate_allocation(ns)
         wd.control.append(("alloc", float(rmse), np.array(vl, dtype=float).tolist(), np.array(cl, dtype=float).tolist(),
                            np.array(ns).tolist()))
         return ns
@@ -190,7 +224,8 @@ def run(wd, sc, cap=60000):
             res = True
         else:
             res = state["calls"] > sc["after_k"]
-        wd.control.append(("criteria", float(alpha), np.array(ml, dtype=float).tolist(), float(rmse), res))
+        if not phase["warm"]:
+            wd.control.append(("criteria", float(alpha), np.array(ml, dtype=float).tolist(), float(rmse), res))
         return res
 
     criteria = ConvergenceCriteria(criteria=rec_criteria, compute_mc_paths=rec_alloc)
@@ -206,8 +241,10 @@ def run(wd, sc, cap=60000):
 
     # ---- in-run monitors ---------------------------------------------------------------------------
     def on_set_results(stats, Nl, sum_cost):
+        if phase["warm"]:
+            return
         snap = {"Nl": [int(x) for x in np.asarray(Nl).tolist()], "sum_cost": [float(x) for x in np.asarray(sum_cost).tolist()],
-                "ledger_len": len(wd.stub_ledger), "levels": []}
+                "ledger_len": len(wd.stub_ledger) - phase["led0"], "levels": []}
         for lvl in range(len(snap["Nl"])):
             try:
                 f = np.array(stats.simulation_payoff_with_fine_process(level=lvl, no_control_variates=True), dtype=float)
@@ -224,7 +261,7 @@ def run(wd, sc, cap=60000):
             snap["results_err"] = repr(e)
         rec["passes"].append(snap)
         # M: a sample above the configured maximum level -> the run may never stop: abort with the verdict
-        top = max((e["level"] for e in wd.stub_ledger), default=0)
+        top = max((e["level"] for e in wd.stub_ledger[phase["led0"]:]), default=0)
         if top > maximum_level:
             raise VerdictAbort("level above maximum simulated")
         if len(rec["passes"]) > 400:
@@ -237,6 +274,22 @@ def run(wd, sc, cap=60000):
                                       initial_mc_paths=sc["n0"], seed=sc["seed"], control_variates=cv,
                                       nb_of_processes=sc["nproc"])
         eng = Engine(cfg, coupling)
+        if sc.get("warm_rmse_factor"):
+            phase["warm"] = True
+            try:
+                eng.price(product, sc["rmse"] * sc["warm_rmse_factor"])
+                wd.probes["mlmc.engine_reused_after_a_tighter_run"] += 1
+                wd.faults["history.engine_reused"] += 1
+            except HarnessError as e:
+                # the tighter warm-up run alone exhausted the world's sample bound: no verdict from this world
+                rec["warmup_bound"] = "warm-up run: " + str(e)
+                raise
+            finally:
+                phase["warm"] = False
+                state["calls"] = 0
+                del wd.control[:]
+                phase["led0"] = len(wd.stub_ledger)
+                wd.stub_cap = wd.stub_serial + cap  # the main run gets the whole sample bound of a world
         if sc["variant"] == "fixed":
             rec["stats"] = eng.price_with_constant_mc_paths_and_level(product)
         else:
@@ -252,7 +305,7 @@ def run(wd, sc, cap=60000):
                         "where": traceback.extract_tb(e.__traceback__)[-1].name}
     finally:
         wd.on_set_results = None
-    rec["ledger"] = wd.stub_ledger
+    rec["ledger"] = wd.stub_ledger[phase["led0"]:]
     rec["control"] = wd.control
     return rec
 
